@@ -95,7 +95,7 @@ func aliasingConfig(seed uint64, i int, root string) (*gen.Case, error) {
 		&gen.Content{Type: "config|noreplace", Src: filepath.Join(root, host.Rel), Dst: "/etc/" + s.Name + "/noreplace.conf"},
 		&gen.Content{Type: "config|missingok", Src: filepath.Join(root, host.Rel), Dst: "/etc/" + s.Name + "/missingok.conf"},
 	)
-	s.Depends = []string{"zeta", "zeta", "alpha", "mid >= 1.0", "paren (>= 1.2)", "alpha2", "alpha"} // unsorted, with duplicates that are not last, both relation spellings
+	s.Depends = []string{"zeta", "zeta", "alpha", "mid >= 1.0", "paren (>= 1.2)", "dbl  (>= 1.0)", "tab\t(>= 2)", "alpha2", "alpha"} // unsorted, with duplicates that are not last, both relation spellings, runs of white space
 	s.Provides = []string{"prov-b", "prov-b", "prov-a", "prov-c"}
 	s.Conflicts = []string{"c2", "c2", "c1", "c3"}
 	s.Recommends = []string{"r9", "r1"}
@@ -447,6 +447,7 @@ func c11(run *ev.Run, tier string) {
 		removeWorkDir(root)
 	}
 	c11OneFormatFails(run, &ops, &compared)
+	c11OtherPlatform(run, &ops, &compared)
 	run.Set("sequences_executed", nseq)
 	run.Set("operations_executed", ops)
 	run.Set("packages_compared_with_fresh_parse", compared)
@@ -561,6 +562,61 @@ func c11OneFormatFails(run *ev.Run, ops, compared *int64) {
 					}
 					if diff := firstDiff(reflect.ValueOf(snap[f]), reflect.ValueOf(info), "Info"); diff != "" {
 						run.Violate("C11/"+f+"/settings-changed-by-sequence/"+diffField(diff), map[string]any{"failing_format": bad, "first_operation": first + " " + bad, "difference": diff})
+					}
+				}
+			}
+		}
+	}
+}
+
+// c11OtherPlatform: `platform` other than linux (deb, rpm and ipk take it; apk
+// and archlinux refuse it): asking for the file name - once, twice - before
+// packaging the same settings object changes neither the package nor the name.
+func c11OtherPlatform(run *ev.Run, ops, compared *int64) {
+	dir := newWorkDir("c11p")
+	defer removeWorkDir(dir)
+	pf := filepath.Join(dir, "p.txt")
+	_ = os.WriteFile(pf, []byte("p\n"), 0o644)
+	for _, platform := range []string{"darwin", "freebsd"} {
+		for _, arch := range []string{"amd64", "arm64", "all"} {
+			s := &gen.Spec{Name: "otherplatform", Arch: arch, Platform: platform, Version: "1.0.0", Maintainer: "O <o@example.com>", Description: "d", MTime: 1400000000}
+			s.RPM.BuildHost = "verif-host"
+			s.Contents = []*gen.Content{{Src: pf, Dst: "/opt/op/p.txt"}}
+			y := s.YAML()
+			for _, f := range []string{"deb", "rpm", "ipk"} {
+				fresh := buildYAML(y, f)
+				if fresh.Err != nil || fresh.Panic != "" {
+					continue // the format does not take this platform: nothing to compare
+				}
+				for names := 1; names <= 2; names++ {
+					cfg, err := parseYAML(y, nil)
+					if err != nil {
+						run.Inconclusive(err.Error())
+						continue
+					}
+					info, _ := infoFor(&cfg, f)
+					p, _ := nfpm.Get(f)
+					var got []string
+					for k := 0; k < names; k++ {
+						got = append(got, p.ConventionalFileName(info))
+						*ops++
+					}
+					res := packageInfo(f, info)
+					*ops++
+					*compared++
+					run.Case(fmt.Sprintf("other-platform|%s|%s|%s|names=%d", platform, arch, f, names), true)
+					d := map[string]any{"platform": platform, "arch": arch, "file_names": got}
+					if names == 2 && got[0] != got[1] {
+						run.Violate("C11/"+f+"/file-name-differs-in-sequence", d)
+					}
+					if res.Err != nil || res.Panic != "" {
+						d["error"] = fmt.Sprint(res.Err, res.Panic)
+						run.Violate("C11/"+f+"/package-fails-in-sequence/after-name-"+f, d)
+						continue
+					}
+					if !bytes.Equal(res.Bytes, fresh.Bytes) {
+						d["len"], d["fresh_len"] = len(res.Bytes), len(fresh.Bytes)
+						run.Violate("C11/"+f+"/bytes-differ-from-fresh-parse/after-name-"+f, d)
 					}
 				}
 			}
